@@ -23,6 +23,10 @@ def panic_signature(err):
         return "c12.cexpr-div-zero"
     if f.endswith("codegen/mod.rs") and "--no-size_t-is-usize" in msg:
         return "c12.size_t-assert"
+    m2 = re.search(r"panicked at ([^\n:]+):\d+:\d+:\n(.*?)(?:\nnote: run with|\nstack backtrace|\Z)", err, re.S)
+    full = m2.group(2) if m2 else msg
+    if f.endswith("ir/context.rs") and "is not a valid Ident" in full:
+        return 'c12.panic:bindgen/ir/context.rs:"…" is not a valid Ident'
     if "/rustc/" in f or "/.cargo/" in f or f.startswith("/"):
         f = "ext:" + "/".join(f.split("/")[-2:])
     msg = re.sub(r'"[^"]*"', '"…"', msg)
